@@ -197,7 +197,7 @@ def rand_case(rng):
 
 
 def gen(ctx):
-    cs = table() + pv.cross_kind_cases() + pv.back_to_back_cases() + pv.raw_chunk_cases() + pv.pad_boundary_cases()
+    cs = table() + pv.cross_kind_cases() + pv.back_to_back_cases() + pv.raw_chunk_cases() + pv.pad_boundary_cases() + pv.forged_update_cases()
     n = 600 if ctx.tier == "quick" else 12000
     cs += [rand_case(ctx.rng) for _ in range(n)]
     return cs
@@ -267,7 +267,7 @@ def oracle(case, out):
                                   "node held a %s -- not an update of a mutable record it already holds" % (i, kind, k, prev)))
             if r.get("store_after") is not None and r["store_after"] != r["store_at_start"] and not stored:
                 v.append(("unpaid-changed-store", "delivery %d: upload without payment changed the store without a write command" % i))
-    return v + pv.kind_change_violations(case, out)
+    return v + pv.kind_change_violations(case, out) + pv.rejection_violations(case, out)
 
 
 def nontrivial(case, out):
